@@ -54,7 +54,32 @@ def oracle(spec, impl):
                     out.add(l["src"])
         return out
 
+    def full_chain(li):
+        l = spec["links"][li]
+        return (full_chain(l["via"]) if "via" in l else []) + list(l["ads"])
+
     for k, (u, t_new, _reqs) in enumerate(ups):
+        # the time that reaches the source output is the announced pull time shifted by the link's delay adapters (what the
+        # driver checked): stated for links of pass-through and fixed-delay adapters from a time component, one per output
+        for li in links_of[u]:
+            l = spec["links"][li]
+            chain = full_chain(li)
+            if spec["comps"][l["src"]]["kind"] != "time" or not all(a[0] in ("scale", "dfix") for a in chain):
+                continue
+            if any(c["kind"] != "time" for c in spec["comps"]):
+                continue     # (a pull-based component passes further requests on to the same output within the update)
+            if sum(1 for lj in links_of[u] if gi_of(spec["links"][lj]) == gi_of(l)) != 1:
+                continue
+            init, exp = spec["comps"][l["src"]]["start"], t_new
+            for a in reversed(chain):
+                if a[0] == "dfix":
+                    exp = min(exp, init) if exp - a[1] < init else exp - a[1]
+            got = [t for tag, t in _reqs if tag == ("out", gi_of(l))]
+            if got and set(got) != {exp}:
+                return ("the time requested from the source output equals the time the driver checks on the link (the pull "
+                        "time shifted by the link's delay adapters)",
+                        {"update_index": k, "updated": u, "to": t_new, "link": li, "chain": chain, "driver_checks": exp,
+                         "requested": got}, None)
         tmin = min(times.values())
         if times[u] != tmin:
             # justification through a lag chain from some least-advanced component
@@ -86,9 +111,21 @@ def gen(ctx):
         return sc.gen_mixed_delay_chain(ctx.rng)
     if r < 0.4:
         return sc.gen_dag(ctx.rng, pull_comps=True)
-    if r < 0.8:
+    if r < 0.7:
         return sc.gen_dag(ctx.rng, pull_comps=False, kinds=["dfix", "dfix", "dpull", "scale", "lin", "prev"], max_chain=3)
-    return sc.gen_dag(ctx.rng, pull_comps=False, kinds=["dfix", "scale"], max_chain=3)
+    if r < 0.78:
+        # one DelayFixed object serving two consumers with different steps
+        a, b = ctx.rng.sample([1, 2, 3, 4, 5, 6], 2)
+        return sc.normalise({"comps": [{"kind": "time", "start": 0, "steps": [ctx.rng.choice([1, 1, 2])]},
+                                       {"kind": "time", "start": 0, "steps": [a]}, {"kind": "time", "start": 0, "steps": [b]}],
+                             "links": [{"src": 0, "out": 0, "dst": 1, "ads": ctx.rng.choice([[["dfix", ctx.rng.randint(1, 4)]], [["scale"], ["dfix", ctx.rng.randint(1, 4)]]])},
+                                       {"src": 0, "out": 0, "dst": 2, "ads": ctx.rng.choice([[], [], [["scale"]]]), "via": 0}],
+                             "order": ctx.rng.sample([0, 1, 2], 3), "end": ctx.rng.randint(12, 30)})
+    s = sc.gen_dag(ctx.rng, pull_comps=False, kinds=["dfix", "scale"], max_chain=3)
+    if ctx.rng.random() < 0.7:
+        # one DelayFixed / Scale object serving two consumers (their requests interleave on the shared adapter)
+        s = sc.normalise(sc.add_branching_adapter(ctx.rng, s))
+    return s
 
 
 def corpus():
